@@ -388,8 +388,20 @@ fn c09_managed_error_new_and_drop() {
 #[kani::unwind(6)]
 #[kani::stub(std::hash::RandomState::new, const_random_state)]
 fn c08_search_iter_b3() {
+    search_iter_bounded(3)
+}
+
+/// thorough tier: the same contract for limits up to 12
+#[kani::proof]
+#[kani::unwind(15)]
+#[kani::stub(std::hash::RandomState::new, const_random_state)]
+fn c08_search_iter_b12() {
+    search_iter_bounded(12)
+}
+
+fn search_iter_bounded(max_limit: usize) {
     let l: usize = kani::any();
-    kani::assume(l <= 3);
+    kani::assume(l <= max_limit);
     let limits = RuntimeLimits {
         maximum_search: Some(l),
         ..Default::default()
